@@ -1,5 +1,192 @@
+/-
+Props/C01.lean — property C01: slim and native forms are exact, order-preserving inverses under any
+mask.  All theorems quantify over every mask shape, every mask and every value list (element type
+`α` arbitrary: reals, (y,x) pairs, vectors).  They are stated about the `Impl` layer (the loop
+transliterations in Model/Slim.lean), which is what the driver executes against the Python.
+-/
 import Model.Slim
+import Proofs.Slim
+
+open Model
+
 namespace C01
-theorem t1 : 1 + 1 = 2 := rfl
-theorem t2 (p q : Prop) [Decidable p] : (p ∨ ¬ p) := Classical.em p
+
+/-- (a) the slim form lists exactly the values at the unmasked pixels, in row-major order:
+    `array_2d_slim_from` = map of the value-at-pixel function over the row-major filter of the frame. -/
+theorem slim_lists_unmasked_row_major (m : Mask) (a : List α) (zero : α) :
+    Impl.slimFrom m a zero
+      = ((pixels m.h m.w).filter fun p => !m.get p.1 p.2).map fun p => a.getD (p.1 * m.w + p.2) zero := by
+  rw [slimFrom_eq]; rfl
+
+/-- (a') its length is the number of unmasked pixels, which is what `total_pixels_2d_from` counts -/
+theorem slim_length (m : Mask) (a : List α) (zero : α) :
+    (Impl.slimFrom m a zero).length = Impl.totalPixels m := by
+  rw [slimFrom_eq, totalPixels_eq]; simp [Spec.slimFrom]
+
+/-- (d1) `native_index_for_slim_index_2d_from`: slim index k denotes the k-th unmasked pixel in
+    row-major order … -/
+theorem nativeForSlim_eq_spec (m : Mask) :
+    Impl.nativeForSlim m = (pixels m.h m.w).filter fun p => !m.get p.1 p.2 :=
+  nativeForSlim_eq m
+
+/-- (d2) … strictly increasing in the flattened index (hence injective), every entry in the frame and
+    unmasked, and every unmasked in-frame pixel present. -/
+theorem nativeForSlim_sorted (m : Mask) :
+    (Impl.nativeForSlim m).Pairwise fun p q => p.1 * m.w + p.2 < q.1 * m.w + q.2 := by
+  rw [nativeForSlim_eq]; exact unmaskedPixels_pairwise m
+
+theorem nativeForSlim_mem (m : Mask) (p : Nat × Nat) :
+    p ∈ Impl.nativeForSlim m ↔ p.1 < m.h ∧ p.2 < m.w ∧ m.get p.1 p.2 = false := by
+  rw [nativeForSlim_eq]; exact mem_unmaskedPixels
+
+/-- (b) the native form produced from slim values holds value k at the k-th unmasked pixel, and zero
+    at every masked position; it has the frame's size. -/
+theorem native_holds_values_and_zeros (m : Mask) (s : List α) (zero : α) :
+    (Impl.nativeFrom m s zero).length = m.h * m.w
+    ∧ (∀ k (hk : k < (Impl.nativeForSlim m).length),
+        (Impl.nativeFrom m s zero)[((Impl.nativeForSlim m)[k]).1 * m.w + ((Impl.nativeForSlim m)[k]).2]?
+          = some (s.getD k zero))
+    ∧ (∀ y x, y < m.h → x < m.w → m.get y x = true →
+        (Impl.nativeFrom m s zero)[y * m.w + x]? = some zero) := by
+  refine ⟨nativeFrom_length m s zero, ?_, ?_⟩
+  · intro k hk
+    have hk' : k < (Spec.unmaskedPixels m).length := by rw [← nativeForSlim_eq]; exact hk
+    have := nativeFrom_hit m s zero k hk'
+    simp only [nativeForSlim_eq]
+    exact this
+  · intro y x hy hx hm
+    have hj : y * m.w + x < m.h * m.w := flat_lt (p := (y, x)) (mem_pixels.mpr ⟨hy, hx⟩)
+    exact nativeFrom_masked m s zero _ hj (by simpa [Mask.get] using hm)
+
+/-- (c1) slim → native → slim is the identity on slim lists of the right length -/
+theorem slim_native_slim (m : Mask) (s : List α) (zero : α)
+    (hs : s.length = Impl.totalPixels m) :
+    Impl.slimFrom m (Impl.nativeFrom m s zero) zero = s := by
+  rw [slimFrom_eq]
+  rw [totalPixels_eq] at hs
+  apply List.ext_getElem
+  · simp [Spec.slimFrom, hs]
+  · intro k h1 h2
+    have hk : k < (Spec.unmaskedPixels m).length := by simpa [Spec.slimFrom] using h1
+    simp only [Spec.slimFrom, List.getElem_map]
+    have := nativeFrom_hit m s zero k hk
+    simp only [List.getD_eq_getElem?_getD, this, Option.getD_some, List.getElem?_eq_getElem h2]
+
+/-- (c2) native → slim → native returns the native values with masked positions zeroed -/
+theorem native_slim_native (m : Mask) (a : List α) (zero : α) :
+    Impl.nativeFrom m (Impl.slimFrom m a zero) zero = Impl.applyMask m a zero := by
+  apply List.ext_getElem?
+  intro j
+  by_cases hj : j < m.h * m.w
+  · cases hm : m.bits.getD j true with
+    | true =>
+      rw [nativeFrom_masked m _ zero j hj hm]
+      have hm' : m.bits[j]?.getD true = true := by simpa using hm
+      simp [Impl.applyMask, hj, hm']
+    | false =>
+      obtain ⟨k, hk, hflat⟩ := exists_slim_index m j hj hm
+      have := nativeFrom_hit m (Impl.slimFrom m a zero) zero k hk
+      rw [hflat] at this
+      rw [this, slimFrom_eq]
+      have hm' : m.bits[j]?.getD true = false := by simpa using hm
+      simp [Impl.applyMask, hj, hm', Spec.slimFrom, hk, hflat]
+  · have h1 : (Impl.nativeFrom m (Impl.slimFrom m a zero) zero).length ≤ j := by
+      rw [nativeFrom_length]; omega
+    have h2 : (Impl.applyMask m a zero).length ≤ j := by simp [Impl.applyMask]; omega
+    rw [List.getElem?_eq_none h1, List.getElem?_eq_none h2]
+
+/-- (d3) the published flat index lists: `unmasked_slim` / `masked_slim` are the ascending lists of
+    flat indices whose mask bit is False / True … -/
+theorem maskSlimIndexes_eq_spec (m : Mask) (flag : Bool) :
+    Impl.maskSlimIndexes m flag = (List.range (m.h * m.w)).filter fun k => m.bits.getD k true == flag :=
+  maskSlimIndexes_eq m flag
+
+/-- (d4) … so together they are a permutation of all flattened pixel indices, each ascending, disjoint. -/
+theorem maskSlimIndexes_partition (m : Mask) :
+    (Impl.maskSlimIndexes m false ++ Impl.maskSlimIndexes m true).Perm (List.range (m.h * m.w))
+    ∧ (Impl.maskSlimIndexes m false).Pairwise (· < ·)
+    ∧ (Impl.maskSlimIndexes m true).Pairwise (· < ·)
+    ∧ (∀ k, k ∈ Impl.maskSlimIndexes m false → k ∉ Impl.maskSlimIndexes m true) := by
+  simp only [maskSlimIndexes_eq]
+  refine ⟨?_, List.Pairwise.filter _ List.pairwise_lt_range,
+    List.Pairwise.filter _ List.pairwise_lt_range, ?_⟩
+  · have := List.filter_append_perm (fun k => m.bits.getD k true == false) (List.range (m.h * m.w))
+    have h2 : (List.range (m.h * m.w)).filter (fun k => !(m.bits.getD k true == false))
+        = (List.range (m.h * m.w)).filter (fun k => m.bits.getD k true == true) := by
+      congr 1; funext k; cases m.bits.getD k true <;> rfl
+    rw [h2] at this
+    exact this
+  · intro k hk hk'
+    simp only [List.mem_filter] at hk hk'
+    have h1 := hk.2; have h2 := hk'.2
+    simp only [beq_iff_eq] at h1 h2
+    rw [h1] at h2
+    exact Bool.noConfusion h2
+
+/-- (d5) the unmasked flat-index list is the flattening of the slim→native table (mutual consistency) -/
+theorem unmasked_slim_is_flat_nativeForSlim (m : Mask) :
+    Impl.maskSlimIndexes m false = (Impl.nativeForSlim m).map fun p => p.1 * m.w + p.2 := by
+  rw [maskSlimIndexes_eq, nativeForSlim_eq, ← pixels_map_flat]
+  unfold Spec.unmaskedPixels
+  rw [List.filter_map]
+  congr 1
+  apply List.filter_congr
+  intro p _
+  simp [Mask.get, flat, Function.comp]
+
+/-- (e) constructor clause.  Let `aₙ` be any native array of the frame's size and `aₛ` its slim form.
+    Whichever form is supplied and whichever storage mode is chosen, the structure reports
+    `.slim = aₛ` and `.native = aₙ` with masked positions zeroed. -/
+theorem constructor_forms_agree (m : Mask) (an : List α) (zero : α) (han : an.length = m.h * m.w)
+    (inp : Impl.Input α)
+    (hinp : inp = .native an ∨ inp = .slim (Impl.slimFrom m an zero)) (storeNative : Bool) :
+    ∃ st, Impl.convertArray2d m inp storeNative false zero = some st
+      ∧ Impl.viewSlim m st zero = some (.slim (Impl.slimFrom m an zero))
+      ∧ Impl.viewNative m st zero = some (.native (Impl.applyMask m an zero)) := by
+  have hlenA : (Impl.applyMask m an zero).length = m.h * m.w := by simp [Impl.applyMask]
+  have hlenS : (Impl.slimFrom m an zero).length = Impl.totalPixels m := slim_length m an zero
+  have hidem : Impl.applyMask m (Impl.applyMask m an zero) zero = Impl.applyMask m an zero := by
+    apply List.ext_getElem
+    · simp [Impl.applyMask]
+    · intro k h1 h2
+      have hk : k < m.h * m.w := by simpa [Impl.applyMask] using h1
+      simp only [Impl.applyMask, List.getElem_map, List.getElem_range]
+      split
+      · rfl
+      · rename_i hb
+        have hb' : m.bits[k]?.getD true = false := by simpa using hb
+        simp [hk, hb']
+  have hslimA : Impl.slimFrom m (Impl.applyMask m an zero) zero = Impl.slimFrom m an zero := by
+    rw [← native_slim_native, slim_native_slim m _ zero hlenS]
+  rcases hinp with h | h <;> subst h <;> cases storeNative
+  · refine ⟨.slim (Impl.slimFrom m (Impl.applyMask m an zero) zero), ?_, ?_, ?_⟩
+    · simp [Impl.convertArray2d, han]
+    · simp [Impl.viewSlim, Impl.convertArray2d, Impl.Stored.toInput, hslimA, hlenS]
+    · simp [Impl.viewNative, Impl.convertArray2d, Impl.Stored.toInput, hslimA, hlenS,
+        native_slim_native]
+  · refine ⟨.native (Impl.applyMask m an zero), ?_, ?_, ?_⟩
+    · simp [Impl.convertArray2d, han]
+    · simp [Impl.viewSlim, Impl.convertArray2d, Impl.Stored.toInput, hlenA, hidem, hslimA]
+    · simp [Impl.viewNative, Impl.convertArray2d, Impl.Stored.toInput, hlenA, hidem]
+  · refine ⟨.slim (Impl.slimFrom m an zero), ?_, ?_, ?_⟩
+    · simp [Impl.convertArray2d, hlenS]
+    · simp [Impl.viewSlim, Impl.convertArray2d, Impl.Stored.toInput, hlenS]
+    · simp [Impl.viewNative, Impl.convertArray2d, Impl.Stored.toInput, hlenS, native_slim_native]
+  · refine ⟨.native (Impl.nativeFrom m (Impl.slimFrom m an zero) zero), ?_, ?_, ?_⟩
+    · simp [Impl.convertArray2d, hlenS]
+    · simp [Impl.viewSlim, Impl.convertArray2d, Impl.Stored.toInput, native_slim_native, hlenA,
+        hidem, hslimA]
+    · simp [Impl.viewNative, Impl.convertArray2d, Impl.Stored.toInput, native_slim_native, hlenA,
+        hidem]
+
+/-! ### non-vacuity: a concrete 2×3 mask with a hole pattern meets every hypothesis above -/
+example :
+    let m : Mask := ⟨2, 3, [false, true, false, true, true, false]⟩
+    Impl.nativeForSlim m = [(0, 0), (0, 2), (1, 2)]
+    ∧ Impl.slimFrom m [10, 20, 30, 40, 50, 60] 0 = [10, 30, 60]
+    ∧ Impl.nativeFrom m [7, 8, 9] 0 = [7, 0, 8, 0, 0, 9]
+    ∧ Impl.totalPixels m = 3
+    ∧ Impl.maskSlimIndexes m false = [0, 2, 5] ∧ Impl.maskSlimIndexes m true = [1, 3, 4] := by
+  decide
+
 end C01
